@@ -84,6 +84,8 @@ AsInt(v) == IF v.k = "int" THEN v.n ELSE TDiv(v.n, v.d)
 Truthy(v) == CASE v.k = "bool" -> v.n = 1 [] v.k = "int" -> v.n # 0 [] v.k = "float" -> v.n # 0 [] v.k = "str" -> v.s # "" [] OTHER -> FALSE
 BoolV(b) == Val("bool", IF b THEN 1 ELSE 0, 1, "")
 
+IsSquare(n) == \E r \in 0..12 : r * r = n
+Sqrt(n) == CHOOSE r \in 0..12 : r * r = n
 RECURSIVE PowInt(_, _, _)
 \* (n/d)^e for e >= 0
 PowInt(n, d, e) == IF e = 0 THEN <<1, 1>> ELSE LET r == PowInt(n, d, e - 1) IN <<r[1] * n, r[2] * d>>
@@ -101,8 +103,12 @@ Arith(op, a, b) ==
     [] op = "/" -> IF b.n = 0 THEN Err("division by zero")
                    ELSE IF fl THEN Norm(a.n * b.d, a.d * b.n) ELSE Val("int", TDiv(a.n, b.n), 1, "")
     [] op = "%" -> IF AsInt(b) = 0 THEN Err("division by zero") ELSE Val("int", TMod(AsInt(a), AsInt(b)), 1, "")
-    [] op = "^" -> \* always a float; only small non-negative integer exponents are in the model
-                   IF b.d # 1 \/ b.n < 0 \/ b.n > 5 \/ Abs(a.n) > 7 \/ a.d > 7 THEN Pruned       \* integral exponents (also integral floats: a^(b^c))
+    [] op = "^" -> \* always a float; in the model: small non-negative integer exponents, and halves (1/2, 3/2, -1/2) of perfect squares
+                   IF b.d = 2 /\ b.n \in {1, 3, 0 - 1} /\ a.n >= 0 /\ IsSquare(a.n) /\ IsSquare(a.d)
+                     THEN LET p == Sqrt(a.n) q == Sqrt(a.d) IN
+                          (IF b.n = 1 THEN Norm(p, q) ELSE IF b.n = 3 THEN Norm(p * p * p, q * q * q)
+                           ELSE IF p = 0 THEN Pruned ELSE Norm(q, p))
+                   ELSE IF b.d # 1 \/ b.n < 0 \/ b.n > 5 \/ Abs(a.n) > 7 \/ a.d > 7 THEN Pruned       \* integral exponents (also integral floats: a^(b^c))
                    ELSE LET r == PowInt(a.n, a.d, b.n) IN Norm(r[1], r[2])
 
 Text(v) == CASE v.k = "str" -> v.s [] v.k = "int" -> ToString(v.n) [] v.k = "bool" -> (IF v.n = 1 THEN "True" ELSE "False") [] OTHER -> "?"
